@@ -126,8 +126,10 @@ func info(name string, tx types.Tx) *txInfo {
 	return ti
 }
 
+// genesisAlloc: A, B, C rich in coins and in the genesis token; D poor (10 coins, no token): it can pay gas but not the
+// values its "failing" letters move.
 func genesisAlloc() []minichain.Alloc {
-	return txkit.AllocWithToken(nil, txkit.GenesisToken, txkit.LKC(1000))
+	return append(txkit.AllocWithToken(nil, txkit.GenesisToken, txkit.LKC(1000)), minichain.Alloc{Addr: txkit.D.Addr, Balance: txkit.LKC(10)})
 }
 
 func chainOpts(trie bool) minichain.Options {
@@ -264,6 +266,44 @@ func buildCatalogue() *catalogue {
 	if len(kinds) != 7 || len(kindFamilies) != 7 {
 		vk.Fatalf("catalogue: the kinds alphabet covers only %v", kinds)
 	}
+	// ---- letters whose EXECUTION FAILS (the transaction is a valid block member, is committed with a failed receipt and
+	// has consumed its nonce), one per failure class the transition distinguishes; all signed by the poor account D for
+	// nonce 0 (the upgrade letter g0 of A, above, fails in the VM too). Cures make the failure cause go away.
+	revertInit := txkit.RevertContract()
+	add("cR", txkit.Create(C, 1, revertInit, nil)) // set-up: the contract whose calls always revert
+	revertAddr := txkit.ContractAddress(C.Addr, 1, revertInit)
+	callData := txkit.Word(big.NewInt(42))
+	intr, err := types.IntrinsicGas(callData, false, cfg.EvmGasRate)
+	if err != nil {
+		vk.Fatalf("catalogue: %v", err)
+	}
+	add("fv", txkit.Transfer(D, 0, B.Addr, txkit.LKC(100)))                                 // value exceeds the coin balance, gas affordable
+	add("fk", txkit.TokenTransfer(D, 0, txkit.GenesisToken, C.Addr, big.NewInt(5)))         // value exceeds the token balance
+	add("fr", txkit.Call(D, 0, revertAddr, txkit.LKC(1), nil))                              // reverting call (with value)
+	add("fc", txkit.Create(D, 0, []byte{0x60, 0x00, 0x60, 0x00, 0xfd}, nil))                // constructor reverts
+	add("fo", txkit.TransferWithGas(D, 0, storeAddr, big.NewInt(0), intr+100, callData))    // out of gas in the VM (SSTORE with 100 gas)
+	add("dv", txkit.Transfer(D, 0, B.Addr, txkit.LKC(1)))                                   // affordable transfer of D, nonce 0
+	add("d1", txkit.Transfer(D, 1, B.Addr, txkit.LKC(1)))                                   // affordable transfer of D, nonce 1 (valid right after a failed one)
+	add("cureCoin", txkit.Transfer(B, 1, D.Addr, txkit.LKC(1000)))                          // D becomes rich: fv would succeed
+	add("cureTok", txkit.TokenTransfer(C, 2, txkit.GenesisToken, D.Addr, big.NewInt(1000))) // D gets tokens: fk would succeed
+	// self-check on the scratch chain: after the set-up block every failing letter, alone in a block, is a valid block
+	// member with a FAILED receipt, and the control letter dv succeeds
+	if _, err := c.Step(decodeAll(lookup(cat, failSetup[0]))); err != nil {
+		vk.Fatalf("catalogue: set-up block of the failures search: %v", err)
+	}
+	for _, n := range append(append([]string{}, failLetters...), "dv") {
+		b, _, err := c.MakeBlock(decodeAll(lookup(cat, []string{n})))
+		if err != nil || !c.CheckBlock(b) {
+			vk.Fatalf("catalogue: block [%s] is not a valid block (%v)", n, err)
+		}
+		pr := c.App().VerifProcessedResult(b.Hash())
+		if !pr.Found || !pr.Ok || len(pr.Receipts) != 1 {
+			vk.Fatalf("catalogue: block [%s] was not executed", n)
+		}
+		if failed := pr.Receipts[0].Status == types.ReceiptStatusFailed; failed != (n != "dv") {
+			vk.Fatalf("catalogue: receipt of %s: failed=%v (vm error %q): the letter is not what the alphabet says", n, failed, pr.Receipts[0].VMErr)
+		}
+	}
 	// self-check of the collisions the alphabet is built for
 	k0, k1 := cat.get("s1").KIs[0], cat.get("s2").KIs[0]
 	for _, n := range []string{"s1x", "s1m", "s1a"} {
@@ -287,6 +327,11 @@ func buildCatalogue() *catalogue {
 // (as of the state after the kinds set-up block). Order: transfer, creation, call, token, confidential with account
 // input, contract upgrade, multi-signature account.
 var kindFamilies = [][3]string{{"a0", "a1", "a5"}, {"c0", "c1", "c5"}, {"l0", "l1", "l5"}, {"k0", "k1", "k5"}, {"u0", "u1", "u5"}, {"g0", "g1", "g5"}, {"m1", "m2", "m6"}}
+
+// failLetters: one letter per failure class of the state transition (see buildCatalogue); failSetup deploys what they
+// need (callee contracts, signer table for the failing upgrade g0).
+var failLetters = []string{"fv", "fk", "fr", "fc", "fo", "g0"}
+var failSetup = [][]string{{"cC", "cR", "m0"}}
 
 // kindsSetup is the block committed after the prelude in the kinds search: the contract the call letters call and
 // the multi-signature transaction that installs the signer table the upgrade letters need.
